@@ -107,3 +107,13 @@ Theorem C04_media_read_back :
                      ti_media x' = [(F"discnum", PInt zd); (F"totaldiscs", PInt zn)].
 Proof. exact media_read_back. Qed.
 Print Assumptions C04_media_read_back.
+
+(* [checksums]: every path of the written object is read back with exactly the algorithm/value typed from the text written for
+   it ("type:value"; C04_typed_checksum_roundtrip says that is (type, value) when neither contains ':'), and no other path appears *)
+From PM Require Import Proofs.TreeInfoChecksums.
+Theorem C04_checksums_read_back :
+  forall x mv t x', ser_ti x mv = Ok t -> deser_ti t = Ok x' -> NoDup (map fst (ti_checksums x)) ->
+  (forall c, In c (ti_checksums x) -> exists tc, typed_checksum (ck_text c) = Ok tc /\ assoc (fst c) (ti_checksums x') = Some tc) /\
+  (forall p, ~ In p (map fst (ti_checksums x)) -> assoc p (ti_checksums x') = None).
+Proof. exact checksums_read_back. Qed.
+Print Assumptions C04_checksums_read_back.
